@@ -153,8 +153,9 @@ theorem resolve_equiv (r₁ r₂ : Renames) (h : RenEquiv r₁ r₂) (c : Str) (
     resolveRenamed c r₁ imps id = resolveRenamed c r₂ imps id := by
   unfold resolveRenamed
   rw [(h id c).2]
-  have : (fun i : ImportedType => renameOf r₁ id i.baseCrate) = fun i => renameOf r₂ id i.baseCrate := by
-    funext i; exact (h id i.baseCrate).1
+  have : (fun i : ImportedType => (renameOf r₁ id i.baseCrate).map fun n => (i.baseCrate, n)) =
+      fun i => (renameOf r₂ id i.baseCrate).map fun n => (i.baseCrate, n) := by
+    funext i; rw [(h id i.baseCrate).1]
   rw [this, (h id c).1]
 
 mutual
